@@ -13,7 +13,7 @@
 (*       $sum &c. integer arithmetic; after the map the sound bounded      *)
 (*       evaluation of Sigma0.tla applies unchanged.                       *)
 (***************************************************************************)
-EXTENDS Sigma0
+EXTENDS Sigma0, SequencesExt
 
 \* ---------------------------------------------------------------- (a) typing
 IsDecl(n) == n.k = "decl"
@@ -75,8 +75,12 @@ FormWhy(f, env, tab, types) ==
          ELSE FormWhy(f.f, [v \in {f.vars[i].v : i \in DOMAIN f.vars} |-> f.vars[CHOOSE i \in DOMAIN f.vars : f.vars[i].v = v].t] @@ env, tab, types)
     [] OTHER -> "connective " \o f.k \o " is not one anthem may emit"
 
-\* "" iff the problem is well-formed, else the first reason
-ProblemWhy(nodes) ==
+RECURSIVE JoinArgs(_)
+JoinArgs(a) == IF a = <<>> THEN "" ELSE IF Len(a) = 1 THEN a[1] ELSE a[1] \o " * " \o JoinArgs(Tail(a))
+TypeStr(ty) == IF ty.args = <<>> THEN ty.res ELSE "(" \o JoinArgs(ty.args) \o ") > " \o ty.res
+\* the sequence of all reasons why the problem is not well-formed (empty iff it is).  When a symbol is declared twice the
+\* uses of symbols cannot be typed reliably, so only the declaration-level reasons are reported in that case.
+ProblemWhys(nodes) ==
   LET sd == SymDecls(nodes)
       td == TypeDecls(nodes)
       types == KnownTypes(nodes)
@@ -85,18 +89,24 @@ ProblemWhy(nodes) ==
       tab == [s \in {sd[i].sym : i \in DOMAIN sd} |-> sd[CHOOSE i \in DOMAIN sd : sd[i].sym = s].type]
       fs == Forms(nodes)
       nconj == Cardinality({i \in DOMAIN fs : fs[i].role = "conjecture"})
-  IN First(<<
-       IF \E i, j \in DOMAIN names : i # j /\ names[i] = names[j]
-       THEN "two annotated formulas have the same name " \o names[CHOOSE i \in DOMAIN names : \E j \in DOMAIN names : i # j /\ names[i] = names[j]] ELSE "",
-       IF \E i, j \in DOMAIN syms : i # j /\ syms[i] = syms[j]
-       THEN "symbol " \o syms[CHOOSE i \in DOMAIN syms : \E j \in DOMAIN syms : i # j /\ syms[i] = syms[j]] \o " is declared more than once" ELSE "",
-       IF \E i, j \in DOMAIN td : i # j /\ td[i].sym = td[j].sym THEN "a type is declared twice" ELSE "",
-       IF \E i \in DOMAIN sd : sd[i].sym \in types \/ sd[i].sym \in DOMAIN IntFunctions \/ sd[i].sym \in IntPredicates THEN "a declared symbol clashes with a type or built-in name" ELSE "",
-       IF \E i \in DOMAIN sd : \E j \in DOMAIN sd[i].type.args : sd[i].type.args[j] \notin types THEN "a declaration mentions an undeclared type" ELSE "",
-       IF \E i \in DOMAIN sd : sd[i].type.res \notin types \cup {"$o"} THEN "a declaration has an undeclared result type" ELSE "",
-       IF \E i \in DOMAIN fs : fs[i].role \notin {"axiom", "conjecture"} THEN "a formula has a role other than axiom / conjecture" ELSE "",
-       IF nconj # 1 THEN "the problem has " \o ToString(nconj) \o " conjectures" ELSE "",
-       First([i \in DOMAIN fs |-> LET w == FormWhy(fs[i].f, <<>>, tab, types) IN IF w = "" THEN "" ELSE fs[i].name \o ": " \o w])>>)
+      dupFirst == {i \in DOMAIN syms : (\E j \in DOMAIN syms : i < j /\ syms[i] = syms[j]) /\ ~\E h \in 1..(i - 1) : syms[h] = syms[i]}
+      dups == [i \in dupFirst |-> LET j == CHOOSE y \in DOMAIN syms : i < y /\ syms[i] = syms[y]
+                                  IN "symbol " \o syms[i] \o " is declared more than once: as " \o TypeStr(sd[i].type) \o " and as " \o TypeStr(sd[j].type)]
+      builtin == {i \in DOMAIN sd : sd[i].sym \in types \/ sd[i].sym \in DOMAIN IntFunctions \/ sd[i].sym \in IntPredicates}
+      declLevel == [i \in dupFirst |-> dups[i]] 
+      declReasons == SetToSeq({dups[i] : i \in dupFirst}
+                              \cup {"symbol " \o sd[i].sym \o " is declared although it is the name of a type or a built-in" : i \in builtin})
+      general == <<
+         IF \E i, j \in DOMAIN names : i # j /\ names[i] = names[j]
+         THEN "two annotated formulas have the same name " \o names[CHOOSE i \in DOMAIN names : \E j \in DOMAIN names : i # j /\ names[i] = names[j]] ELSE "",
+         IF \E i, j \in DOMAIN td : i # j /\ td[i].sym = td[j].sym THEN "a type is declared twice" ELSE "",
+         IF \E i \in DOMAIN sd : \E j \in DOMAIN sd[i].type.args : sd[i].type.args[j] \notin types THEN "a declaration mentions an undeclared type" ELSE "",
+         IF \E i \in DOMAIN sd : sd[i].type.res \notin types \cup {"$o"} THEN "a declaration has an undeclared result type" ELSE "",
+         IF \E i \in DOMAIN fs : fs[i].role \notin {"axiom", "conjecture"} THEN "a formula has a role other than axiom / conjecture" ELSE "",
+         IF nconj # 1 THEN "the problem has " \o ToString(nconj) \o " conjectures" ELSE "">>
+      typing == IF declReasons # <<>> THEN <<>>
+                ELSE [i \in DOMAIN fs |-> LET w == FormWhy(fs[i].f, <<>>, tab, types) IN IF w = "" THEN "" ELSE fs[i].name \o ": " \o w]
+  IN SelectSeq(declReasons \o general \o typing, LAMBDA x : x # "")
 
 \* ---------------------------------------------------------------- (b) the standard interpretation, as a map into sigma_0
 SortOfType(ty) == IF ty = "$int" THEN "i" ELSE IF ty = "symbol" THEN "s" ELSE "g"
